@@ -79,6 +79,7 @@ def main(argv=None):
     ap = argparse.ArgumentParser()
     ap.add_argument("targets", nargs="+")
     ap.add_argument("-v", action="store_true")
+    ap.add_argument("-q", action="store_true")
     ap.add_argument("--timeout", type=int, default=20000)
     a = ap.parse_args(argv)
     rc = 0
@@ -88,8 +89,13 @@ def main(argv=None):
         if r.undecided:
             print("   UNDECIDED:", r.undecided)
             rc = max(rc, 2)
-        for name, s in summarize(r).items():
+        summ = summarize(r)
+        if a.q:
+            print(f"   obligations: {len(summ)} names, {sum(1 for s in summ.values() if s['proved'] == s['n'])} proved")
+        for name, s in summ.items():
             st = "proved" if s["proved"] == s["n"] else "REFUTED" if s["refuted"] else "unknown"
+            if a.q and st == "proved":
+                continue
             print(f"   {st:8s} {name}  x{s['n']} (proved {s['proved']}, refuted {s['refuted']}, unknown {s['unknown']})  {s['secs']:.2f}s   {s['clause'] or ''}")
             if st != "proved":
                 rc = max(rc, 1)
@@ -98,7 +104,8 @@ def main(argv=None):
                         if ob.name == name and ob.status != "proved":
                             print("      path:", ob.info.get("path"), "model:", str(ob.model)[:600] if ob.model is not None else None)
         for x in sorted(r.assumptions):
-            print("   ASSUMPTION", x)
+            if not a.q:
+                print("   ASSUMPTION", x)
     return rc
 
 
